@@ -7,7 +7,7 @@
 From Coq Require Import String.
 From Coq Require Import List Arith ZArith.
 Import ListNotations.
-From YP Require Import Base.Str Term.Term Term.Show Engine.Db Engine.DbCursor Engine.DbCursorThms Engine.DbRetractOrder Engine.DbFacts Engine.DbProg Engine.DbProgThms Engine.RunDbProg.
+From YP Require Import Base.Str Term.Term Term.Show Engine.Db Engine.DbCursor Engine.DbCursorThms Engine.DbRetractOrder Engine.DbFacts Engine.DbProg Engine.DbProgThms Engine.RunDbProg Engine.DbProgInv Engine.DbProgSim.
 
 (* "A goal that enumerates the dynamic facts of a predicate works on the facts as they were when the
    goal started: additions and removals made while the enumeration is suspended do not change which
@@ -129,3 +129,64 @@ Example C14_compiled_programs :
     OL [OL [otag "answers" [OL [OL []]]; otag "answers" [OL [OL []]]; otag "answers" [OL [OL []]]];
         OL [OL [OL [term_obs ss]; OL [term_obs ss]]]; onat 6].
 Proof. split; vm_compute; reflexivity. Qed.
+
+(* ---- TRACE INCLUSION: every run of compiled code IS a history of the cursor machine ----
+   (Engine/DbProgSim.v)  For every program whose clauses mention only their own variables (prog_ok), every body,
+   bindings and global state that satisfy C13's invariant (cinv; it holds when a query starts and is preserved:
+   C13_compiled_invariant), every fuel: there is a history evs of EStart / ENext / EClose / EAssert / ERetractAll events -
+   a goal reached at nesting depth d is the generator d, started with the dereferenced goal, one ENext per answer
+   with the events of the rest of the body in between, a last ENext that returns StopIteration - that the cursor
+   machine (with the concrete matching function match_fact, same fuel) runs from the same database and identity
+   counter (Rst) to the same database and identity counter, and whose database outputs (dbouts: the outputs without
+   OStart / OEnd / OClosed) are the trace of the compiled run, event by event: equal for stored facts (OIns) and
+   retractall (ORAll), and for every answer of a goal (OAns) or of a retract (ORet) the same Answer identity and the
+   same answer up to an injective renaming of cells (tr_eqv; the two machines allocate the copy of the fact at
+   different cells; proof: increment property and equivariance of unify, C13's invariant). *)
+Theorem C14_compiled_run_is_cursor_history : forall uf prog, prog_ok prog -> forall n gs s g g' a tr F st,
+  cinv F gs s g -> solve uf prog n gs s g = Some (g', a, tr) -> Rst g st ->
+  exists evs st' outs, run (match_fact uf) st evs = Some (st', outs) /\ Rst g' st' /\ tr_eqv tr (dbouts outs).
+Proof. exact prog_run_is_cursor_history. Qed.
+Print Assumptions C14_compiled_run_is_cursor_history.
+
+(* C14_cursor_visits_snapshot transferred: in the history of a compiled run, from any point on (pre ++ post), every
+   generator that holds its snapshot returns exactly the matching facts of that snapshot, in order, then
+   StopIteration - whatever the rest of the run asserts or retracts *)
+Theorem C14_compiled_cursor_visits_snapshot : forall uf prog, prog_ok prog -> forall n gs s g g' a tr F,
+  cinv F gs s g -> solve uf prog n gs s g = Some (g', a, tr) ->
+  exists evs st' outs, run (match_fact uf) (st_of g) evs = Some (st', outs) /\ Rst g' st' /\ tr_eqv tr (dbouts outs) /\
+    forall pre post st1 o1 st2 o2 c L, evs = pre ++ post ->
+      run (match_fact uf) (st_of g) pre = Some (st1, o1) -> run (match_fact uf) st1 post = Some (st2, o2) ->
+      cur_stream (match_fact uf) (scur st1 c) = Some L -> no_ctl c post ->
+      outs_of c post o2 = expect L (length (outs_of c post o2)).
+Proof. exact prog_history_cursor_visits_snapshot. Qed.
+Print Assumptions C14_compiled_cursor_visits_snapshot.
+
+(* C14_no_lost_update and C14_retract_at_most_once transferred: the database after the compiled run is the fold
+   of the atomic updates of its history, and the Answers removed by the run are those removed by the history,
+   pairwise different *)
+Theorem C14_compiled_history_no_lost_update : forall uf prog, prog_ok prog -> forall n gs s g g' a tr F,
+  cinv F gs s g -> ids_ok (gdb g) (gid g) -> solve uf prog n gs s g = Some (g', a, tr) ->
+  exists evs st' outs, run (match_fact uf) (st_of g) evs = Some (st', outs) /\ Rst g' st' /\ tr_eqv tr (dbouts outs) /\
+    (forall k, gdb g' k = apply_outs outs (gdb g) k) /\ ids_ok (gdb g') (gid g') /\
+    NoDup (removed outs) /\ removed tr = removed outs.
+Proof. exact prog_history_no_lost_update. Qed.
+Print Assumptions C14_compiled_history_no_lost_update.
+
+(* non-vacuity of the hypotheses: the program  t(X) :- assertz(p(1)), p(X), assertz(p(2)).  and the query t(X0) *)
+Ltac tin_small := intros w Hw; do 8 (destruct w as [|w]; [try reflexivity; simpl in Hw; discriminate|]); simpl in Hw; discriminate.
+Example C14_compiled_history_nonvacuous :
+  let p x := TFun (d "p") [x] in
+  let prog := [mkcl (d "t") 1 [TVar 0] [GAssert false (p (TInt 1)); GCall (d "p") [TVar 0]; GAssert false (p (TInt 2))]] in
+  prog_ok prog /\ cinv (fun _ => false) [GCall (d "t") [TVar 0]] [] (ginit 1 1000) /\ Rst (ginit 1 1000) init /\
+  exists g' a tr, solve 50 prog 100 [GCall (d "t") [TVar 0]] [] (ginit 1 1000) = Some (g', a, tr) /\ length tr = 3 /\ length a = 1.
+Proof.
+  cbv zeta. split; [|split; [|split]].
+  - repeat constructor; simpl; try tin_small.
+  - constructor; simpl.
+    + constructor; simpl; [intros k f []|intros w Hw; discriminate].
+    + constructor.
+    + intros v t [].
+    + repeat constructor; simpl; try tin_small.
+  - split; reflexivity.
+  - eexists. eexists. eexists. split; [vm_compute; reflexivity|]. split; reflexivity.
+Qed.
